@@ -20,7 +20,8 @@ REAL = [('uio66-triclinic / linker (atol 0.2)', 'tests/uio66/uio66-triclinic.lmp
         ('uio66 / linker', 'tests/uio66/uio66.cif', {}, 'tests/uio66/uio66-linker.cml', 0.05, 'self'),
         ('uio66 / Zr -> Hf -> Zr', 'tests/uio66/uio66.cif', {}, 'Zr', 0.05, 'aba'),
         ('hkust-1 / benzene', 'tests/hkust-1/hkust-1-with-bonds.cif', {}, 'tests/molecules/benzene.xyz', 0.05, 'self'),
-        ('uio66-triclinic / Zr -> Hf -> Zr', 'tests/uio66/uio66-triclinic.lmpdat', dict(atom_format='full'), 'Zr', 0.05, 'aba')]
+        ('uio66-triclinic / Zr -> Hf -> Zr', 'tests/uio66/uio66-triclinic.lmpdat', dict(atom_format='full'), 'Zr', 0.05, 'aba'),
+        ('uio66-triclinic / linker -> fluorinated linker, then search (atol 0.2)', 'tests/uio66/uio66-triclinic.lmpdat', dict(atom_format='full'), 'tests/uio66/uio66-linker.cml', 0.2, 'search')]
 
 
 def plan(tier, seed):
@@ -35,7 +36,13 @@ def plan(tier, seed):
                     for v in range(len(VARIANTS)):
                         for nc in (1, 2):
                             scs.append(dict(kind='gen', cell=ci, pat=pn, subpose=pi, place=pl, variant=v, ncopies=nc, atol=0.05, noise=(pi + pl + v) % 2))
-    scs += [dict(kind='real', i=i) for i in (range(3) if q else range(len(REAL)))]
+    # tolerances that are needed to match: copies displaced by 0.77 * (0.3 / c) per atom, searched and replaced at atol 0.3
+    for ci in range(len(G.CELLS)):
+        for pn in PATS[1:]:
+            for v in (2, 3):
+                scs.append(dict(kind='gen', cell=ci, pat=pn, subpose=4 if (ci + v) % 2 else 1, place=P(0.97, 0.03, 0.97), variant=v, ncopies=2, atol=0.3, build_atol=0.48, noise=1))
+    scs += [dict(kind='real', i=i) for i in (list(range(3)) + [5] if q else range(len(REAL)))]
+    scs += [dict(kind='large', order=o, variant=v) for o in (0, 1) for v in ('self', 'aba')]
     return dict(scenarios=scs, exhaustive=True, chunk=10,
                 menus=dict(cells=[c[0] for c in G.CELLS], patterns=PATS, variants=VARIANTS, copies=[1, 2], real=[r[0] for r in REAL], draws='every answer of both steps within the bound'),
                 bounds=dict(history_depth=2, draw_deviation_bound=draw_bound(tier)),
@@ -116,7 +123,7 @@ def run_gen(sc, ctx, out):
     bel = list(pel[:-1]) + [{'Zr': 'Hf'}.get(pel[-1], 'S')]
     B = pattern_atoms(bel, pp)
     cprime = cconst(pp) if k > 1 else 1.0
-    noise_len = 0.6 * 0.8 * sc['atol'] / cconst(pp) if (sc['noise'] and k > 1) else 0.0
+    noise_len = 0.6 * 0.8 * sc.get('build_atol', sc['atol']) / cconst(pp) if (sc['noise'] and k > 1) else 0.0
     tol = 1e-6 + 2 * cprime * noise_len
     before = (atom_seq(s), term_sets(s))
     case = dict(scenario=sc, variant=variant, structure=describe(s), pattern=dict(elements=pel, positions=(pp + OFF).tolist()), B=bel)
@@ -129,12 +136,12 @@ def run_gen(sc, ctx, out):
             return None, err
         if variant == 'A->B->A':
             r2, err = call(replace_pattern_in_structure, r1[0], B, A, atol=sc['atol'], return_num_matches=True)
-            return (None, err) if err else ((r2[0], r1[1], r2[1]), None)
+            return (None, err) if err else ((r2[0], r1[1], r2[1], r1[0]), None)
         r2, err = call(MM._orig_find if hasattr(MM, '_orig_find') else find_pattern_in_structure, r1[0], A, atol=sc['atol'])
         return (None, err) if err else ((r1[0], r1[1], r2), None)
     nrep = set()
     for answers, (res, err) in ex.explore(fn, bound=draw_bound(ctx['tier']), cap=60 if ctx['tier'] == 'quick' else 200,
-                                          observe=lambda r: repr((None if r[0] is None else (describe(r[0][0]), r[0][1:]), r[1] and repr(r[1][0])))):
+                                          observe=lambda r: repr((None if r[0] is None else (describe(r[0][0]), r[0][1:3]), r[1] and repr(r[1][0])))):
         out['evals'] += 2 if not variant.startswith('self') else 1; out['compared'] += 1
         V = lambda clause, sig, msg: out['violations'].append(viol(clause, sig, '%s [%s, %s, draws %r]' % (msg, variant, G.CELLS[sc['cell']][0], tuple(answers)), sc, case=case, answers=list(answers)))
         if err:
@@ -152,10 +159,22 @@ def run_gen(sc, ctx, out):
                 kdiff = [kk for kk in KINDS if after[1][kk] != before[1][kk]][0]
                 V('self-noop', 'terms', 'identity replacement changed the set of %s tuples: %r -> %r' % (kdiff, before[1][kdiff], after[1][kdiff]))
         elif variant == 'A->B->A':
-            r = res[0]
+            r = res[0]; mid = res[3]
+            # the B copies of the intermediate structure are displaced copies themselves: they are due to match only
+            # when the reference matcher rates them IN at this tolerance (measured deviation eps')
+            g = ref_match(np.asarray(mid.positions), [str(e) for e in mid.elements], cell, pp, bel, sc['atol'], cprime) if k > 1 else {}
+            n_in = sum(1 for v in g.values() if v[0] == 'IN'); n_poss = sum(1 for v in g.values() if v[0] != 'OUT')
+            eps2 = max([v[1] for v in g.values() if v[0] != 'OUT'] or [0.0])
+            tol2 = max(tol, 1e-6 + (cprime + 2) * eps2 + noise_len)
+            if k == 1 or n_in == n_poss == res[1]:
+                if res[1] != res[2]:
+                    V('reversible', 'counts', 'A->B replaced %r matches, B->A %r' % (res[1], res[2]))
+            elif not (n_in <= res[2] <= n_poss):
+                V('reversible', 'counts', 'A->B replaced %r matches, B->A %r; the intermediate structure holds %d copies of B that must match and %d that may' % (res[1], res[2], n_in, n_poss))
             if res[1] != res[2]:
-                V('reversible', 'counts', 'A->B replaced %r matches, B->A %r' % (res[1], res[2]))
-            d = match_multiset([(e, p) for e, p, _, _ in before[0]], [(e, p) for e, p, _, _ in atom_seq(r)], cell, tol)
+                out['outcomes']['round trip: intermediate copies of B in the gray zone of the tolerance'] = 1
+                continue
+            d = match_multiset([(e, p) for e, p, _, _ in before[0]], [(e, p) for e, p, _, _ in atom_seq(r)], cell, tol2)
             if d:
                 V('reversible', 'multiset', 'A->B->A does not restore the structure: %s' % d)
         else:
@@ -198,6 +217,22 @@ def run_real(sc, ctx, out):
             kdiff = [kk for kk in KINDS if after[1][kk] != before[1][kk]][0]
             V('self-noop', 'terms', 'identity replacement changed the set of %s tuples (%d -> %d)' % (kdiff, len(before[1][kdiff]), len(after[1][kdiff])))
         out['outcomes']['real self matches=%d' % nm] = 1; out['nontrivial'] = 1 if nm else 0
+    elif mode == 'search':
+        B = Atoms(elements=['F' if e == 'H' else e for e in A.elements], positions=np.asarray(A.positions))
+        find = MM._orig_find if hasattr(MM, '_orig_find') else find_pattern_in_structure
+        (f0, err), _ = ex.run(lambda: call(find, s, A, atol=atol), ())
+        if err:
+            V('no-result', 'exc:' + exc_sig(err), 'search raised %r' % (err[0],)); return
+        (res, err), _ = ex.run(lambda: call(replace_pattern_in_structure, s, A, B, atol=atol, return_num_matches=True), ())
+        if err:
+            V('no-result', 'exc:' + exc_sig(err), 'raised %r' % (err[0],)); return
+        (f1, err), _ = ex.run(lambda: call(find, res[0], A, atol=atol), ())
+        out['evals'] += 3; out['compared'] += 1
+        if err:
+            V('no-result', 'exc:' + exc_sig(err), 'second search raised %r' % (err[0],)); return
+        if len(f1):
+            V('nothing-left', 'found-again', 'the search at atol %.2g finds %d occurrences before the replacement, the replacement (same atol) reports %r, and a second search still finds %d' % (atol, len(f0), res[1], len(f1)))
+        out['outcomes']['real search matches=%d left=%d' % (len(f0), len(f1))] = 1; out['nontrivial'] = 1 if len(f0) else 0
     else:
         (res, err), _ = ex.run(lambda: call(replace_pattern_in_structure, s, A, B, atol=atol, return_num_matches=True), ())
         if err:
@@ -219,9 +254,49 @@ def run_real(sc, ctx, out):
         out['samples'] = [dict(real=name, mode=mode)]
 
 
+def run_large(sc, ctx, out):
+    """more than 2^15 atoms (G.large_case): identity replacement; C-O-H -> C-O-S -> C-O-H (the atoms put in by the first step are stored last)"""
+    cell, pos, el, pp, pel, planted = G.large_case(sc['order'])
+    s = Atoms(elements=el, positions=pos, cell=cell, charges=[1e-4 * (i % 1000) for i in range(len(el))], groups=[i % 5 for i in range(len(el))])
+    A = pattern_atoms(pel, pp); B = pattern_atoms(pel[:-1] + ['S'], pp)
+    ex = explorer(ctx)
+    V = lambda clause, sig, msg: out['violations'].append(viol(clause, sig, 'structure of %d atoms with 5 copies of C-O-H (atom order %d): %s' % (len(el), sc['order'], msg), sc))
+    if sc['variant'] == 'self':
+        (res, err), _ = ex.run(lambda: call(replace_pattern_in_structure, s, A, A.copy(), return_num_matches=True), ())
+        out['evals'] += 1; out['compared'] += 1
+        if err:
+            V('no-result', 'large-exc:' + exc_sig(err), 'raised %r' % (err[0],)); return
+        r, nm = res
+        if nm != 5:
+            V('self-noop', 'large-count', 'identity replacement reports %r matches' % (nm,))
+        if len(r.atom_types) != len(el) or list(r.elements) != list(el) or not np.array_equal(np.asarray(r.positions), np.asarray(s.positions)) or not np.array_equal(np.asarray(r.charges), np.asarray(s.charges)) or not np.array_equal(np.asarray(r.groups), np.asarray(s.groups)):
+            V('self-noop', 'large-atoms', 'identity replacement changed the atoms (%d -> %d atoms)' % (len(el), len(r.atom_types)))
+    else:
+        (r1, err), _ = ex.run(lambda: call(replace_pattern_in_structure, s, A, B, return_num_matches=True), ())
+        if err:
+            V('no-result', 'large-exc:' + exc_sig(err), 'A->B raised %r' % (err[0],)); return
+        (r2, err), _ = ex.run(lambda: call(replace_pattern_in_structure, r1[0], B, A, return_num_matches=True), ())
+        out['evals'] += 2; out['compared'] += 1
+        if err:
+            V('no-result', 'large-exc:' + exc_sig(err), 'B->A raised %r' % (err[0],)); return
+        if r1[1] != 5 or r2[1] != 5:
+            V('reversible', 'large-counts', 'A->B replaced %r matches, B->A %r; there are 5 occurrences' % (r1[1], r2[1]))
+        r = r2[0]
+        he0 = np.asarray(s.positions)[[i for i, e in enumerate(el) if e == 'He']]; he1 = np.asarray(r.positions)[[i for i, e in enumerate(r.elements) if e == 'He']]
+        if he0.shape != he1.shape or not np.array_equal(he0, he1):
+            V('reversible', 'large-bystanders', 'the He atoms changed')
+        o = [(e, tuple(p)) for e, p in zip(el, np.asarray(s.positions)) if e != 'He']; f = [(str(e), tuple(p)) for e, p in zip(r.elements, np.asarray(r.positions)) if e != 'He']
+        d = match_multiset(o, f, cell, 1e-6)
+        if d:
+            V('reversible', 'large-multiset', 'A->B->A does not restore the structure: %s' % d)
+    out['outcomes']['large %s' % sc['variant']] = 1; out['nontrivial'] = 1
+
+
 def run(sc, ctx):
     out = dict(evals=0, compared=0, violations=[], outcomes={}, hashes={h64(sc)}, nontrivial=0)
-    if sc['kind'] == 'gen':
+    if sc['kind'] == 'large':
+        run_large(sc, ctx, out)
+    elif sc['kind'] == 'gen':
         run_gen(sc, ctx, out)
     else:
         run_real(sc, ctx, out)
